@@ -133,10 +133,19 @@ func drawErrors(t *core.Tape) []jsonapi.Error {
 
 		if t.Bool(1, 3) {
 			e.Links = map[string]string{"about": "https://example.org/e", "type": "t"}
+
+			if t.Bool(1, 4) {
+				e.Links["about"] = ""
+			}
 		}
 
 		if t.Bool(1, 3) {
 			e.Source = map[string]interface{}{"pointer": "/data/attributes/x", "parameter": "sort"}
+
+			// the empty string is a JSON pointer too (the whole document)
+			if t.Bool(1, 3) {
+				e.Source = map[string]interface{}{"pointer": ""}
+			}
 		}
 
 		if t.Bool(1, 3) {
